@@ -35,7 +35,15 @@ sender, receiver, retry timer; server: srv = (srv + subscribe) - unsubscribe per
  8. the read section of resubscribe (ResubLock .. ResubSnap; RecursiveRLock must violate NoDeadlock / CallerReturns): rounds
     with the caller parked on the full queue when the stream is granted, the client's logger at DEBUG into a slow sink (no
     hook point exists inside the section; log lines written there are what a slow sink stretches);
- 9. thorough: end to end through the production path (dependency stream hook -> Subscribe) against a real gRPC
+ 9. signalled failures have a kind (Kinds: the gRPC status codes a client can see and the OK end of stream; variant
+    CanceledStops must violate KeepsRetrying / Converges): the scripted streams of replay, random and the dependency driver
+    fail with status errors of every kind (mandatory strata: every kind on both service streams, on stream creation and on
+    the dependency stream), the real gRPC server ends service and dependency streams with the codes (quick: Canceled,
+    Unavailable; thorough: all);
+10. the server may be unreachable when the proxy starts (StartUnreachable / ServerUp; variant DialOnce must violate
+    Converges): config.New while nothing listens, the real server starts listening on that address 7 s later (thorough:
+    1, 7, 20 s), the dependency set must be carried by streams within the deadline - runs beside the other stages;
+11. thorough: end to end through the production path (dependency stream hook -> Subscribe) against a real gRPC
     discovery server implemented in the harness.
 """
 import concurrent.futures as cf
@@ -53,6 +61,8 @@ SIG_BATCH = "out-of-sync/sub-unsub-same-batch"
 SIG_SILENT = "no-retry/silent-connection-loss"
 SIG_LARGE = "out-of-sync/large-set-not-resubscribed"
 SIG_RLOCK = "deadlock/resubscribe-stuck-in-read-section"
+SIG_NORETRY = "no-retry/after-stream-failure"
+SIG_START = "no-retry/server-unreachable-at-start"
 SIG_DEPORDER = "out-of-sync/dependency-messages-applied-out-of-order"
 SILENT_CONFIRM_S = 150     # "never" is only reported after this long (the verdict must not depend on machine load)
 SILENT_DEADLINE_S = 90     # generously above keepalive time + timeout (30 s + 10 s; grpc 1.23 needs up to 2*30 + 10)
@@ -131,6 +141,9 @@ def classify_stuck(o):
             and not d.get("pendNS") and not d.get("pendSend")):
         # stream granted, queue flushed, lock never released, nothing ever sent: resubscribe is inside its read section
         return SIG_RLOCK
+    if d.get("retryOutstanding") and not d.get("pendNS") and d.get("lockFree") and not d.get("streamUp"):
+        # a stream (or its creation) failed, the client is not blocked on anything and never asks for a new stream
+        return SIG_NORETRY
     if d.get("callerBlocked"):
         return "deadlock/call-never-returns"
     return "deadlock/never-settles"
@@ -141,6 +154,13 @@ def judge(ctx, what, rec, o, artefact, stats):
     if o["stuck"]:
         sig = classify_stuck(o)
         d = o.get("diag") or {}
+        if sig == SIG_NORETRY:
+            stats[sig] = stats.get(sig, 0) + 1
+            ctx.violation(sig, "%s: the stream (or its creation) failed with %s and %.0f s later the client has not asked for a new stream "
+                          "(stream requests so far: %s, queues %s/%s, lock free): the Run loop has ended"
+                          % (what, d.get("lastFailKind") or "an error", rec.get("deadline_s", 0), d.get("nsRequests"), d.get("subq"), d.get("unsubq")),
+                          artefact)
+            return
         txt = ("%s: a Subscribe/Unsubscribe call did not return within %.0f s although the environment granted every "
                "stream and completed every Send (queues %d/%d of %d, client lock %s, stream %s, requests seen on it: %d%s)"
                % (what, rec.get("deadline_s", 0), d.get("subq", -1), d.get("unsubq", -1), d.get("cap", -1),
@@ -258,8 +278,9 @@ def part_model(ctx):
         cfg = "MC_Discovery_fixed_fulllive.cfg"
     r = ctx.mc("config", "Discovery", cfg, workers=6, timeout=2400, coverage=not ctx.thorough)
     if r.coverage:
-        ctx.check_vacuity(r, "Discovery", ignore=("Init", "CallUnlock", "DepMsg", "ApplyNext"))
-        # CallUnlock exists in the pinned variant only; DepMsg / ApplyNext are exercised by MC_Discovery_depmsgs*.cfg
+        ctx.check_vacuity(r, "Discovery", ignore=("Init", "CallUnlock", "DepMsg", "ApplyNext", "NewStreamUnreachable", "ServerUp"))
+        # CallUnlock exists in the pinned variant only; DepMsg / ApplyNext are exercised by MC_Discovery_depmsgs*.cfg,
+        # NewStreamUnreachable / ServerUp by MC_Discovery_kinds*.cfg
     return r
 
 
@@ -295,7 +316,7 @@ def part_model_enqfix(ctx):
     return ctx.mc("config", "Discovery", "MC_Discovery_enqfix.cfg", workers=4, timeout=900, count=True)
 
 
-def part_pinned(ctx):
+def part_pinned(ctx, half=None):
     exp = {
         "MC_Discovery_pinned_deadlock.cfg": ["NoDeadlock"],
         "MC_Discovery_pinned_callers.cfg": ["TEMPORAL"],
@@ -306,6 +327,9 @@ def part_pinned(ctx):
         "MC_Discovery_nokeepalive.cfg": ["NoDeadlock"],
         "MC_Discovery_nokeepalive_retry.cfg": ["TEMPORAL"],
         "MC_Discovery_nokeepalive_converges.cfg": ["TEMPORAL"],
+        "MC_Discovery_canceled_stops.cfg": ["TEMPORAL"],
+        "MC_Discovery_canceled_stops_converges.cfg": ["TEMPORAL"],
+        "MC_Discovery_dial_once.cfg": ["TEMPORAL"],
         "MC_Discovery_recursive_rlock.cfg": ["NoDeadlock"],
         "MC_Discovery_recursive_rlock_callers.cfg": ["TEMPORAL"],
         "MC_Discovery_maxperrequest.cfg": ["TEMPORAL"],
@@ -314,7 +338,13 @@ def part_pinned(ctx):
         "MC_Discovery_windows.cfg": ["NotW1", "NotW2", "NotW3", "NotW4", "NotW5", "NotW6", "NotW7", "NotW8", "NotW9"],
     }
     out = {}
-    for cfg, e in exp.items():
+    windows = exp.pop("MC_Discovery_windows.cfg")
+    items = list(exp.items())
+    if half is not None:          # the chain is run as two halves side by side
+        items = items[half::2]
+        windows = windows[half::2]
+    items.append(("MC_Discovery_windows.cfg", windows))
+    for cfg, e in items:
         if cfg == "MC_Discovery_windows.cfg":
             # every named window must be reachable: one run per trap
             for w in e:
@@ -327,6 +357,9 @@ def part_pinned(ctx):
             prop = {"MC_Discovery_pinned_callers.cfg": "CallerReturns", "MC_Discovery_pinned_retry.cfg": "KeepsRetrying",
                     "MC_Discovery_nokeepalive_retry.cfg": "KeepsRetrying",
                     "MC_Discovery_recursive_rlock_callers.cfg": "CallerReturns",
+                    "MC_Discovery_canceled_stops.cfg": "KeepsRetrying",
+                    "MC_Discovery_canceled_stops_converges.cfg": "Converges",
+                    "MC_Discovery_dial_once.cfg": "Converges",
                     "MC_Discovery_maxperrequest.cfg": "Converges",
                     "MC_Discovery_nokeepalive_converges.cfg": "Converges"}[cfg]
             if "Temporal property %s was violated" % prop not in r.stdout:
@@ -380,6 +413,9 @@ def part_e2e(ctx):
     return kit.read_ndjson(rfile)
 
 
+KINDS = ["Canceled", "DeadlineExceeded", "Unavailable", "Internal", "ResourceExhausted", "EOF"]
+
+
 def names(prefix, a, b):
     return ["%s%02d" % (prefix, i) for i in range(a, b)]
 
@@ -409,6 +445,12 @@ def mandatory_dep_strata():
     out.append(("stratum/sender-held-add-remove-add-remove",
                 [up, dep(["p01"]), {"a": "hold"}, dep(["x"]), dep(removed=["x"]), dep(["x", "y"]), dep(removed=["x"]),
                  {"a": "send", "S": ["p01"], "U": []}]))
+    # every kind of signalled failure on both service streams, on their creation and on the dependency stream
+    for k in KINDS:
+        out.append(("stratum/every-stream-fails-with-%s" % k,
+                    [up, dep(["q01", "q02", "q03"]), {"a": "hold"}, {"a": "send", "S": ["q01", "q02", "q03"], "U": []},
+                     {"a": "fail", "code": k}, dep(["q04"]), {"a": "nsFail", "code": k}, dep(removed=["q02"]), up,
+                     {"a": "depfail", "code": k}, dep(["q05"], ["q01"])]))
     return out
 
 
@@ -469,6 +511,23 @@ def part_parked(ctx):
     return kit.read_ndjson(rfile)[0]
 
 
+def part_kinds(ctx):
+    rfile = os.path.join(ctx.work, "kinds.ndjson")
+    ctx.harness(["c16-kinds", "-out", rfile, "-kinds", ",".join(KINDS) if ctx.thorough else "Canceled,Unavailable"], timeout=300)
+    return kit.read_ndjson(rfile)
+
+
+def part_latestart(ctx):
+    rfile = os.path.join(ctx.work, "latestart.ndjson")
+    ctx.harness(["c16-latestart", "-out", rfile, "-delays", "1,7,20" if ctx.thorough else "7"], timeout=400)
+    return kit.read_ndjson(rfile)
+
+
+def part_model_kinds(ctx):
+    cfg = "MC_Discovery_kinds.cfg" if ctx.thorough else "MC_Discovery_kinds_quick.cfg"
+    return ctx.mc("config", "Discovery", cfg, workers=3, timeout=1200, count=False)
+
+
 def part_keepalive(ctx):
     """the ClientConn built by the production constructor, observed (quick and thorough)"""
     rfile = os.path.join(ctx.work, "keepalive.ndjson")
@@ -512,8 +571,9 @@ def run(ctx):
         "a silent failure is detected by nothing but the transport keepalive (TCP retransmission timeouts, ~15 min, are beyond every deadline)",
         "grpc-go 1.23 declares a silent connection dead within 2*Time + Timeout; the keepalive parameters are read from the ClientConn by reflection",
     ]
-    parts = {"model": part_model, "enqfix": part_model_enqfix, "pinned": part_pinned, "replay": part_replay, "random": part_random,
-             "keepalive": part_keepalive, "deps": part_deps, "largeset": part_largeset, "parked": part_parked}
+    parts = {"model": part_model, "enqfix": part_model_enqfix, "pinned": lambda c: part_pinned(c, 0), "pinned_b": lambda c: part_pinned(c, 1), "replay": part_replay, "random": part_random,
+             "keepalive": part_keepalive, "deps": part_deps, "largeset": part_largeset, "parked": part_parked,
+             "kinds": part_kinds, "latestart": part_latestart, "model_kinds": part_model_kinds}
     parts["model_deps"] = part_model_deps
     if ctx.thorough:
         parts["model_async_live"] = part_async_converges
@@ -532,7 +592,7 @@ def run(ctx):
         if errs:
             raise kit.Inconclusive(" | ".join(errs))
     ctx.cov["exhaustive"] = True
-    ctx.cov["anti_vacuity"] = res["pinned"]
+    ctx.cov["anti_vacuity"] = dict(res["pinned"], **res["pinned_b"])
 
     # ---- spec -> code
     scripts, hists, results, variants, nval, nev = res["replay"]
@@ -620,8 +680,9 @@ def run(ctx):
             art = {"script": sc, "result": r}
             if o["stuck"]:
                 bad = True
-                if sigs[scope] != SIG_DEADLOCK and SIG_DEADLOCK in sigs.values():
-                    continue
+                roots = {SIG_DEADLOCK, SIG_NORETRY, SIG_RLOCK} & set(sigs.values())
+                if roots and sigs[scope] not in roots:
+                    continue   # the hook is blocked behind the other client's fault: a consequence, not a second finding
                 judge(ctx, what, r, o, art, dstats)
             elif r["setDiffers"].get(scope):
                 bad = True
@@ -660,6 +721,38 @@ def run(ctx):
         raise kit.Inconclusive("large-set scenario recovered only after %.0f s: machine too loaded to decide" % lg["elapsed_s"])
     else:
         ctx.cov["traces_validated_against_impl"] += 1
+
+    # ---- the real server ends streams with the status codes; the server is down when the proxy starts
+    kstats = {}
+    for r in res["kinds"]:
+        if r.get("err"):
+            raise kit.Inconclusive("status-code scenario %s: %s" % (r["name"], r["err"]))
+        ctx.case(key="e2e/" + r["name"], nontrivial=True)
+        if not r["recovered"]:
+            kstats[r["name"]] = "never"
+            ctx.violation(SIG_NORETRY, "%s (real gRPC): %.0f s after the server ended the %s stream(s) with %s no stream carries the dependency set "
+                          "(service streams seen by the server: %s, missing on the config stream: %s)"
+                          % (r["name"], r["elapsed_s"], r["target"], r["kind"], r["streams"], (r.get("missing") or [])[:4]), {"scenario": r})
+        elif r["elapsed_s"] > r["deadline_s"]:
+            raise kit.Inconclusive("status-code scenario %s recovered only after %.0f s: machine too loaded to decide" % (r["name"], r["elapsed_s"]))
+        else:
+            ctx.cov["traces_validated_against_impl"] += 1
+    ctx.cov["status_codes"] = {"scenarios": [r["name"] for r in res["kinds"]], "not_recovered": kstats}
+    lstats = {}
+    for r in res["latestart"]:
+        if r.get("err"):
+            raise kit.Inconclusive("late-start scenario %s: %s" % (r["name"], r["err"]))
+        ctx.case(key="e2e/" + r["name"], nontrivial=True)
+        lstats[r["name"]] = {"recovered": r["recovered"], "elapsed_s": r["elapsed_s"], "config_new_s": r["configNew_s"]}
+        if not r["recovered"]:
+            ctx.violation(SIG_START, "%s: config.New ran (%.1f s) while nothing listened on the endpoint; %.0f s after the discovery server started "
+                          "listening there no stream carries the dependency set (service streams seen by the server: %s)"
+                          % (r["name"], r["configNew_s"], r["elapsed_s"], r["streams"]), {"scenario": r})
+        elif r["elapsed_s"] > r["deadline_s"]:
+            raise kit.Inconclusive("late-start scenario %s recovered only after %.0f s" % (r["name"], r["elapsed_s"]))
+        else:
+            ctx.cov["traces_validated_against_impl"] += 1
+    ctx.cov["late_start"] = lstats
 
     # ---- the read section of resubscribe
     pk = res["parked"]
